@@ -44,14 +44,11 @@ func genC04(rt *rapid.T) core.Scenario {
 		}
 	}
 	nRegs := rapid.IntRange(1, 5).Draw(rt, "nRegs")
-	used := map[[2]int]bool{}
 	for i := 0; i < nRegs; i++ {
 		ti := types[rapid.IntRange(0, nTypes-1).Draw(rt, "regType")]
-		fn := rapid.IntRange(0, 2*numSites-1).Draw(rt, "fn")
-		if used[[2]int{ti, fn}] {
-			continue
-		}
-		used[[2]int{ti, fn}] = true
+		// few functions, so several registrations are closures of the same function literal
+		// (same code pointer, as handlers built by a factory in user code)
+		fn := rapid.SampledFrom([]int{0, 0, 1, numSites, numSites + 1}).Draw(rt, "fn")
 		o := SubOpts{
 			Once:   i == 0 || rapid.IntRange(0, 2).Draw(rt, "once") > 0,
 			Async:  rapid.Bool().Draw(rt, "async"),
@@ -81,14 +78,19 @@ func genC04(rt *rapid.T) core.Scenario {
 	return sc
 }
 
+func (sc *C04Scenario) regName(i int) string {
+	r := sc.Regs[i]
+	return fmt.Sprintf("#%d(E%02d/f%d %+v)", i, r.Type, r.Fn, r.Opts)
+}
+
 func (sc *C04Scenario) Execute(t *testing.T) *core.Outcome {
 	out := &core.Outcome{}
 	var w *World
 	inv := map[int][]int{} // regKey -> event ids it was invoked with
 	body := func() {
 		w = NewWorld()
-		w.OnInvoke = func(ti, fn int, ctx context.Context, id int) {
-			k := regKey(ti, fn)
+		w.OnInvoke = func(ti, fn, uid int, ctx context.Context, id int) {
+			k := uid
 			w.Rec.Add("enter", k, id, "")
 			inv[k] = append(inv[k], id)
 			for i := 0; i < sc.Yields; i++ {
@@ -96,8 +98,8 @@ func (sc *C04Scenario) Execute(t *testing.T) *core.Outcome {
 			}
 			w.Rec.Add("exit", k, id, "")
 		}
-		for _, r := range sc.Regs {
-			if err := w.Subscribe(r.Type, r.Fn, r.Opts); err != nil {
+		for i, r := range sc.Regs {
+			if err := w.SubscribeUID(r.Type, r.Fn, i, r.Opts); err != nil {
 				out.HarnessErr = "subscribe: " + err.Error()
 				return
 			}
@@ -149,28 +151,27 @@ func (sc *C04Scenario) Execute(t *testing.T) *core.Outcome {
 		}
 		fired := map[int]bool{}
 		expectCount := map[int]int{}
-		for _, r := range sc.Regs {
-			k := regKey(r.Type, r.Fn)
+		for k, r := range sc.Regs {
 			e := eligible(r)
 			got := inv[k]
 			if !r.Opts.Once {
 				expectCount[r.Type]++
 				if len(got) != len(e) {
-					out.V("delivery-count", "ordinary handler %s received %v, eligible publishes were %v", regName(k), got, e)
+					out.V("delivery-count", "ordinary handler %s received %v, eligible publishes were %v", sc.regName(k), got, e)
 				}
 				continue
 			}
 			if len(got) > 1 {
-				out.V("once-fired-twice", "once handler %s invoked %d times (events %v)", regName(k), len(got), got)
+				out.V("once-fired-twice", "once handler %s invoked %d times (events %v)", sc.regName(k), len(got), got)
 			}
 			if len(e) > 0 {
 				if len(got) == 0 {
-					out.V("once-eligible-not-fired", "once handler %s never ran although eligible publishes %v happened while it was subscribed (dead publishes in run: %d)", regName(k), e, dead)
+					out.V("once-eligible-not-fired", "once handler %s never ran although eligible publishes %v happened while it was subscribed (dead publishes in run: %d)", sc.regName(k), e, dead)
 				}
 				fired[k] = true
 			} else {
 				if len(got) != 0 {
-					out.V("once-fired-ineligible", "once handler %s ran for %v although no publish was eligible", regName(k), got)
+					out.V("once-fired-ineligible", "once handler %s ran for %v although no publish was eligible", sc.regName(k), got)
 				}
 				expectCount[r.Type]++
 			}
@@ -180,7 +181,7 @@ func (sc *C04Scenario) Execute(t *testing.T) *core.Outcome {
 					ok = ok || x == id
 				}
 				if !ok {
-					out.V("once-fired-ineligible", "once handler %s ran for event %d which is not an eligible publish", regName(k), id)
+					out.V("once-fired-ineligible", "once handler %s ran for event %d which is not an eligible publish", sc.regName(k), id)
 				}
 			}
 		}
@@ -199,8 +200,7 @@ func (sc *C04Scenario) Execute(t *testing.T) *core.Outcome {
 		}
 		// ---- probe phase: every once handler that has not fired must still fire for an eligible event
 		nextID := 100000
-		for _, r := range sc.Regs {
-			k := regKey(r.Type, r.Fn)
+		for k, r := range sc.Regs {
 			if !r.Opts.Once || fired[k] || r.Opts.Filter == 3 {
 				continue
 			}
@@ -210,20 +210,19 @@ func (sc *C04Scenario) Execute(t *testing.T) *core.Outcome {
 				id++
 			}
 			before := map[int]int{}
-			for _, q := range sc.Regs {
-				before[regKey(q.Type, q.Fn)] = len(inv[regKey(q.Type, q.Fn)])
+			for qk := range sc.Regs {
+				before[qk] = len(inv[qk])
 			}
 			w.Rec.Add("probe", r.Type, id, "")
 			allTypes[r.Type].Pub(w, context.Background(), id)
 			w.Bus.Wait()
-			for _, q := range sc.Regs {
-				qk := regKey(q.Type, q.Fn)
+			for qk, q := range sc.Regs {
 				want := 0
 				if q.Type == r.Type && filterAccepts(q.Opts.Filter, id) && !(q.Opts.Once && fired[qk]) {
 					want = 1
 				}
 				if d := len(inv[qk]) - before[qk]; d != want {
-					out.V("once-probe", "after the concurrent phase, publishing eligible event %d: handler %s invoked %d times, expected %d", id, regName(qk), d, want)
+					out.V("once-probe", "after the concurrent phase, publishing eligible event %d: handler %s invoked %d times, expected %d", id, sc.regName(qk), d, want)
 				}
 				if want == 1 && q.Opts.Once {
 					fired[qk] = true
